@@ -249,6 +249,8 @@ def run_shard(ctx):
         duplicate_case(ctx, pydsdl, rng.randrange(1 << 40), ctx.tmp)
     for _ in range(ctx.share(p["n_dup"]) // 4):
         symlink_case(ctx, pydsdl, rng.randrange(1 << 40), ctx.tmp)
+    for _ in range(3):
+        empty_case(ctx, pydsdl, rng.randrange(1 << 40), ctx.tmp)
     ctx.notes["hash_seeds_per_shard"] = len(outs)
     shutil.rmtree(work, ignore_errors=True)
 
@@ -305,6 +307,35 @@ def duplicate_case(ctx, pydsdl, seed, work):
     finally:
         shutil.rmtree(base, ignore_errors=True)
     ctx.case(("dup", how, same_text, short, ver, t1, t2), True, classes=["duplicate-" + how])
+
+
+def empty_case(ctx, pydsdl, seed, work):
+    """A root namespace directory without any definition (only sub-directories and other files) and an empty target list."""
+    rng = random.Random(seed)
+    base = (work / "empty").resolve()
+    shutil.rmtree(base, ignore_errors=True)
+    root = base / "emptyns"
+    (root / "sub" / "deeper").mkdir(parents=True)
+    (root / "README.md").write_text("nothing here\n")
+    (root / "sub" / "Foo.1.0.txt").write_text("@sealed\n")
+    other = base / "otherns"
+    other.mkdir()
+    (other / "X.1.0.dsdl").write_text("@sealed\n" if rng.random() < 0.7 else "garbage %%%\n")
+    case = {"empty": seed}
+    try:
+        ctx.mon("empty-namespace")
+        for what, fn, exp in (("read_namespace(empty root)", lambda: pydsdl.read_namespace(root, [other]), []),
+                              ("read_files([])", lambda: pydsdl.read_files([], [root, other]), ([], [])),
+                              ("read_files(None)", lambda: pydsdl.read_files(None, [other], [root]), ([], []))):
+            try:
+                got = fn()
+                if got != exp:
+                    ctx.violation("C10/content", "%s returned %r, expected %r" % (what, got, exp), case)
+            except Exception as ex:  # noqa
+                ctx.violation("C10/valid-rejected" if isinstance(ex, pydsdl.InvalidDefinitionError) else "C10/foreign-exception", "%s: %r" % (what, ex), case)
+    finally:
+        shutil.rmtree(base, ignore_errors=True)
+    ctx.case(("empty", seed % 3), True, classes=["empty-namespace"])
 
 
 def symlink_case(ctx, pydsdl, seed, work, prefix="C10"):
@@ -383,6 +414,9 @@ def symlink_case(ctx, pydsdl, seed, work, prefix="C10"):
 def replay(ctx, case):
     if "symlinks" in case:
         symlink_case(ctx, import_pydsdl(), case["symlinks"], ctx.tmp)
+        return
+    if "empty" in case:
+        empty_case(ctx, import_pydsdl(), case["empty"], ctx.tmp)
         return
     if "duplicate" in case:
         duplicate_case(ctx, import_pydsdl(), case["duplicate"], ctx.tmp)
